@@ -28,7 +28,7 @@ pub fn gens(cx: &Cx) -> Vec<Gen> {
     ]
 }
 
-pub const RULE: &str = "lattice: every (PDU size, buffer size) pair of the size lattice L x L (L = 0..16, 25..27, 100, 255..257, 1000, 4080..4100, 8190..8195, 16384, 32767, 32768, 65520..65540, 69999, 70000) x 6 label cases (6-byte, 3-byte, broadcast, explicit re-use, 6-byte primed, 3-byte primed) for the first call, then up to 20 continuation calls with buffers drawn from L, 0..32 and exact-fit sizes; fragpos: encap_frag on every context position 0..=len+2 of PDUs of 0..=64 bytes x every buffer size 0..=40 and {100,4097,4098,70000}, and boundary positions of lattice-sized PDUs x L; ptypes: protocol types (all 65536 in thorough) x labels incl. zero and explicit re-use; ext: seeded extension chains of 0..4 entries incl. illegal combinations, fragmented on; state: seeded configuration + traffic prefix then a random call (atomicity over prior states); runs: whole PDUs driven to completion under constant-7, constant-8 and random >=7 byte schedules; maxreuse: re-use limits 1,2,3,254,255,0 x N+1 or 600 packets with one label (encap and encap_ext), then PDUs at the 16-bit total-length boundary for an empty and a full label; labelcfg: scripted label-memory situations (label sent then re-use disabled / re-enabled with a limit; a run of explicit re-use labels under a limit; a run that exhausts the limit, another label, the first label again) x label kinds x limits 1/2/3/255 x encap / encap_ext, each followed by fitting / fragmenting / failing calls with the same label and with an explicit re-use label; samectx: one hand-built context and buffer length offered for PDUs of 23 different lengths in a row (an answer must not depend on the previous question); statefulcrc: an encapsulator with a CRC calculator that counts its calls and salts its result: after each refused call (every reason the property names) the encapsulator incl. its calculator is unchanged and the next fragmenting call equals that of a twin that never saw the refused call; bigfrag: continuation calls with 4080..=4100 bytes remaining x buffers {4090,4096..4101,5000,8000,65536,70000} at four context positions. Every call is one evaluation; a call is non-trivial when the oracle of this property had something to judge (see per-property note); fingerprint = hash(function, PDU length, buffer length, label case, context position, outcome class).";
+pub const RULE: &str = "lattice: every (PDU size, buffer size) pair of the size lattice L x L (L = 0..16, 25..27, 100, 255..257, 1000, 4080..4100, 8190..8195, 16384, 32767, 32768, 65520..65540, 69999, 70000) x 6 label cases (6-byte, 3-byte, broadcast, explicit re-use, 6-byte primed, 3-byte primed) for the first call, then up to 20 continuation calls with buffers drawn from L, 0..32 and exact-fit sizes; fragpos: encap_frag on every context position 0..=len+2 of PDUs of 0..=64 bytes x every buffer size 0..=40 and {100,4097,4098,70000}, and boundary positions of lattice-sized PDUs x L; ptypes: protocol types (all 65536 in thorough) x labels incl. zero and explicit re-use; ext: seeded extension chains of 0..4 entries incl. illegal combinations, fragmented on; state: seeded configuration + traffic prefix then a random call (atomicity over prior states); runs: whole PDUs driven to completion under constant-7, constant-8 and random >=7 byte schedules; maxreuse: re-use limits 1,2,3,254,255,0 x N+1 or 600 packets with one label (encap and encap_ext), then PDUs at the 16-bit total-length boundary for an empty and a full label; labelcfg: scripted label-memory situations (label sent then re-use disabled / re-enabled with a limit; a run of explicit re-use labels under a limit; a run that exhausts the limit, another label, the first label again) x label kinds x limits 1/2/3/255 x encap / encap_ext, each followed by fitting / fragmenting / failing calls with the same label and with an explicit re-use label, fragmented PDUs carried on to their end; samectx: one hand-built context and buffer length offered for PDUs of 23 different lengths in a row (an answer must not depend on the previous question); statefulcrc: an encapsulator with a CRC calculator that counts its calls and salts its result: after each refused call (every reason the property names) the encapsulator incl. its calculator is unchanged and the next fragmenting call equals that of a twin that never saw the refused call; bigfrag: continuation calls with 4080..=4100 bytes remaining x buffers {4090,4096..4101,5000,8000,65536,70000} at four context positions. Every call is one evaluation; a call is non-trivial when the oracle of this property had something to judge (see per-property note); fingerprint = hash(function, PDU length, buffer length, label case, context position, outcome class).";
 
 fn fp(func: Func, plen: usize, blen: usize, lk: &str, pos: usize, outc: u64) -> u64 {
     mix(mix(mix(func as u64 + 1, plen as u64), mix(blen as u64, fnv(lk.as_bytes()))), mix(pos as u64, outc))
@@ -455,6 +455,22 @@ pub fn run_key(cx: &Cx, mask: u32, gen: &str, key: u64, rep: &mut Report) {
                 let spec = CallSpec { func: if use_ext { Func::EncapExt } else { Func::Encap }, pdu, frag_id: 3, ptype: 0x0800, label: l, exts: if use_ext { Some(&chain) } else { None }, ctx: None, buf_len: bl };
                 let o = s.call(&spec, mask, rep, &replay);
                 note(rep, mask, &spec, &o);
+                // a fragmented PDU is carried on to its end in this label-memory situation (every continuation judged)
+                let mut ctx = o.ctx;
+                let mut calls = 0;
+                while let Some(c) = ctx {
+                    calls += 1;
+                    if calls > 60 {
+                        break;
+                    }
+                    let spec = CallSpec { func: Func::Frag, pdu, frag_id: 3, ptype: 0x0800, label: l, exts: None, ctx: Some(c), buf_len: [40usize, 23, 64, 4097][calls % 4] };
+                    let o = s.call(&spec, mask, rep, &replay);
+                    note(rep, mask, &spec, &o);
+                    if !o.ok() {
+                        break;
+                    }
+                    ctx = o.ctx;
+                }
             };
             match script {
                 0 => {
